@@ -52,4 +52,62 @@ theorem read_after_set {α : Type} [NumAlg α] (x : List α) (σ : Nat → α) (
     Clo.run x (setSlot σ p.oid v) (.param q) = .ok (if q.oid = p.oid then v else σ q.oid) := by
   by_cases h : q.oid = p.oid <;> simp [Clo.run, setSlot, h]
 
+/-! ### `VectorParameter.set`: the loop `for i, param in enumerate(self._parameters): param.set(val_array[i])` -/
+
+/-- the store after the loop: element `i` (slot `oids[i]`) receives `vals[i]`, in order -/
+def vecSet {α : Type} (σ : Nat → α) : List Nat → List α → Nat → α
+  | i :: is, v :: vs => vecSet (setSlot σ i v) is vs
+  | _, _ => σ
+
+theorem vecSet_other {α : Type} (σ : Nat → α) (is : List Nat) (vs : List α) (j : Nat) (h : j ∉ is) :
+    vecSet σ is vs j = σ j := by
+  induction is generalizing σ vs with
+  | nil => cases vs <;> rfl
+  | cons i is ih =>
+    cases vs with
+    | nil => rfl
+    | cons v vs =>
+      simp only [vecSet]
+      rw [ih _ _ (fun hm => h (List.mem_cons_of_mem _ hm))]
+      have : j ≠ i := fun e => h (e ▸ List.mem_cons_self)
+      simp [setSlot, this]
+
+/-- after a bulk `set` of a vector parameter whose elements are distinct objects, element `k` reads `vals[k]` — whatever was set
+    element-wise before (the store `σ` is arbitrary): bulk updates are not shadowed by earlier element updates -/
+theorem read_after_vecSet {α : Type} (σ : Nat → α) (is : List Nat) (vs : List α) (hd : is.Nodup) (hl : is.length = vs.length)
+    (k : Nat) (hk : k < is.length) :
+    vecSet σ is vs (is[k]) = vs[k]'(hl ▸ hk) := by
+  induction is generalizing σ vs k with
+  | nil => cases hk
+  | cons i is ih =>
+    cases vs with
+    | nil => simp at hl
+    | cons v vs =>
+      have hd' := List.nodup_cons.mp hd
+      cases k with
+      | zero =>
+        simp only [vecSet, List.getElem_cons_zero]
+        rw [vecSet_other _ _ _ _ hd'.1]; simp [setSlot]
+      | succ k =>
+        simp only [vecSet, List.getElem_cons_succ]
+        exact ih _ _ hd'.2 (by simpa using hl) k (by simpa using hk)
+
+/-- and an element-wise `set` after a bulk one changes that element only -/
+theorem elem_after_vecSet {α : Type} (σ : Nat → α) (is : List Nat) (vs : List α) (i : Nat) (v : α) (j : Nat) :
+    setSlot (vecSet σ is vs) i v j = if j = i then v else vecSet σ is vs j := rfl
+
+/-- the guard of `VectorParameter.set` precedes the loop: a wrong shape changes nothing; the right shape updates all `size`
+    elements -/
+theorem vectorParamSet_spec (size : Nat) (shape : List Nat) :
+    (vectorParamSetG size shape = none ↔ shape ≠ [size]) ∧ (shape = [size] → vectorParamSetG size shape = some size) := by
+  unfold vectorParamSetG
+  by_cases h : shape = [size] <;> simp [h]
+
+/-- `MatrixParameter.set`: rejected exactly for a wrong shape or an asymmetric matrix on a symmetric parameter; otherwise the slot
+    receives a private float64 copy of the NEW array -/
+theorem matrixParamSet_spec (shapeOk sym isSym : Bool) :
+    (matrixParamSetG shapeOk sym isSym = none ↔ (shapeOk = false ∨ (sym = true ∧ isSym = false))) ∧
+    (∀ src, matrixParamSetG shapeOk sym isSym = some src → src = "np.asarray(values, dtype=np.float64).copy()") := by
+  cases shapeOk <;> cases sym <;> cases isSym <;> simp [matrixParamSetG]
+
 end Optyx.Props.ParamTie
